@@ -212,6 +212,10 @@ func (r *rnRun) askAndCompare(q csQuestion, cold consensus.Consensus) {
 	warm := r.n.Z.Consensus()
 	a1 := csAsk(warm, q)
 	r.audit.asked = append(r.audit.asked, q.String())
+	if r.c.Args["audit"] == "ask-only" {
+		// (for experiments) the node is asked, nothing is compared here: only the downstream monitors judge
+		return
+	}
 	a2 := csAsk(warm, q)
 	r.c.Hit("audit-" + q.kind)
 	if a1 != a2 {
